@@ -360,6 +360,31 @@ def rule_flags(ctx, rep):
     rep.ok("C03.flags", "bits", "STOP=%d STOPPED=%d PAUSE=%d PAUSED=%d derived from their writers (free / helper exit / before_fork / helper pause)" % fl.all, [])
 
 
+def rule_cb_nolock(ctx, rep):
+    """Callbacks are invoked with no library lock held (may-lockset of the helper thread, caller contexts included): a
+    callback may itself call call_rcu(), create or free helpers, or wait for grace periods ('callbacks re-enqueue further
+    callbacks'); holding call_rcu_mutex or a queue lock around the invocation deadlocks those."""
+    from .. import lockorder
+    for fl in ALL:
+        F = FL[fl]
+        g = lockorder.LibGraph({fl: ctx.mod(F.lib, "flat")})
+        cx = g.context()
+        n = 0
+        for f in g.fns.values():
+            for i in f.all_insts():
+                if i.op != "icall":
+                    continue
+                fld, _t = g.icall_targets(i)
+                if fld != "rcu_head.func":
+                    continue
+                n += 1
+                rep.touch(f)
+                held = set(g.held(f).get(i.id, ())) | cx[f.name]
+                rep.check(not held, "C03.cb-nolock", "%s.%s@%d" % (fl, f.name, i.line), "callback invoked with no library lock held",
+                          "callback invoked while %s may be held: a callback that calls back into call_rcu / helper management deadlocks" % sorted(held), [i.where()])
+        pat.require(n >= 1, "%s: callback invocation site not found" % fl)
+
+
 RULES = [
     ("C03.flags", rule_flags),
     ("C03.gp", rule_gp),
@@ -369,5 +394,6 @@ RULES = [
     ("C03.stop", rule_stop),
     ("C03.freeall", rule_freeall),
     ("C03.list", rule_list),
+    ("C03.cb-nolock", rule_cb_nolock),
 ]
 FLOORS = {}
